@@ -86,7 +86,7 @@ def reported(v, o):
 def run_lint(sd, vecs, tag):
     fin, fout = os.path.join(sd, tag + '-in.jsonl'), os.path.join(sd, tag + '-out.jsonl')
     vplib.write_jsonl(fin, [dict(v, id=i) for i, v in enumerate(vecs)])
-    vplib.run_harness(['avail-run', fin, fout], timeout=1800)
+    vplib.run_harness(['avail-run', fin, fout], timeout=1800, env={'AVAIL_SCRATCH': sd})
     outs = vplib.read_jsonl(fout)
     if len(outs) != len(vecs):
         raise Inconclusive('harness returned %d results for %d vectors' % (len(outs), len(vecs)))
